@@ -53,6 +53,8 @@ BOUNDS = {
              "the same mask, on an equal-pattern mask with another origin, Grid2D with another over-sampling) in every Grid2D case; "
              "subclass inputs (aa.Grid2DIrregularUniform; trivial harness subclasses of Grid2D / Grid2DIrregular / Grid1D) through every decorator and "
              "return kind: <=3 points, Grid1D length<=3, Grid2D masks of 1x1, 1x2, 2x2; "
+             "the stack is called with no keyword, is_transformed=True and is_transformed=False, directly and NESTED (a to_array(transform) "
+             "method whose body calls a transform(relocate) method of the same object with its **kwargs); "
              "histories: two grids with different symbolic coordinates on ONE mask geometry (separate equal mask objects) called A, B, A through "
              "to_array / to_grid / to_vector_yx / project_grid on the same profile: Grid1D masks of length<=3, Grid2D masks 1x2, 2x2, 1..3 irregular points",
     "thorough": "as quick with Grid2D masks of H*W<=9, Grid1D length<=5, irregular <=5 points, angle set {0,30,45,90,120,170,-100,200,-60}, projections of "
@@ -958,6 +960,16 @@ def body_stack(inp, kind, N, rot, H=0, W=0):
     P = _profile("C17Profile", _user(uf, log, "scalar"),
                  [aa.grid_dec.to_array, aa.grid_dec.transform, aa.grid_dec.relocate_to_radial_minimum],
                  radial_grid_from=_radial_grid_from, transformed_to_reference_frame_grid_from=transformed, centre=(cy, cx))
+    # nested profile (the way light / mass profiles are written): a `to_array(transform(.))` method whose body calls a second
+    # `transform(relocate(.))` method of the same object, handing its **kwargs on
+    inner = aa.grid_dec.transform(aa.grid_dec.relocate_to_radial_minimum(_user(uf, log, "scalar")))
+
+    def outer(self, grid, **kwargs):
+        return self.inner(grid, **kwargs)
+
+    PN = type("C17Profile", (object,), {"inner": inner, "fn": aa.grid_dec.to_array(aa.grid_dec.transform(outer)),
+                                         "radial_grid_from": _radial_grid_from, "transformed_to_reference_frame_grid_from": transformed,
+                                         "centre": (cy, cx)})
     old = rr_mod.conf
     rr_mod.conf = _FakeConf({"C17Profile": rmin})
     try:
@@ -966,14 +978,18 @@ def body_stack(inp, kind, N, rot, H=0, W=0):
         else:
             c, s = math.cos(float(np.radians(rot))), math.sin(float(np.radians(rot)))
             rel = [((p[k, 0] - cy) * c - (p[k, 1] - cx) * s, (p[k, 1] - cx) * c + (p[k, 0] - cy) * s) for k in range(n)]
-        for tag, kwargs, pts in (("fresh", {}, rel), ("already_transformed", {"is_transformed": True}, [(p[k, 0], p[k, 1]) for k in range(n)])):
+        asis = [(p[k, 0], p[k, 1]) for k in range(n)]
+        for tag, cls_, kwargs, pts in (("fresh", P, {}, rel), ("already_transformed", P, {"is_transformed": True}, asis),
+                                       ("explicit_false", P, {"is_transformed": False}, rel),
+                                       ("nested.fresh", PN, {}, rel), ("nested.explicit_false", PN, {"is_transformed": False}, rel),
+                                       ("nested.already_transformed", PN, {"is_transformed": True}, asis)):
             nlog, ntlog = len(log), len(tlog)
-            res = hx.attempt(lambda: P().fn(grid, **kwargs))
+            res = hx.attempt(lambda: cls_().fn(grid, **kwargs))
             rec = log[-1] if len(log) == nlog + 1 else None
             A[tag + ".calls"] = len(log) - nlog
             E[tag + ".calls"] = 1
             A[tag + ".transform_calls"] = len(tlog) - ntlog
-            E[tag + ".transform_calls"] = 1 if tag == "fresh" else 0
+            E[tag + ".transform_calls"] = 0 if tag.endswith("already_transformed") else 1      # exactly once, also when nested
             A[tag + ".is_transformed_flag"] = bool(rec["kwargs"].get("is_transformed")) if rec else None
             E[tag + ".is_transformed_flag"] = True
             A[tag + ".seen_type"] = rec["type"] if rec else None
